@@ -14,7 +14,7 @@ def symRaw (s : Sym) : Val :=
            ("st_other", .record [("local", .int s.local_), ("visibility", .int s.visibility)]),
            ("st_shndx", .int s.shndx)]
 
-theorem encNat_one (v : Nat) (le : Bool) : encNat le 1 v = natBE 1 v := by
+theorem gv_encNat_one (v : Nat) (le : Bool) : encNat le 1 v = natBE 1 v := by
   cases le <;> simp [encNat, natBE, natLE]
 
 theorem sym_encodeRaw32 (c : ElfCfg) (hc : c.cls = 32) (s : Sym) (hf : s.fits 32 = true) :
@@ -25,7 +25,7 @@ theorem sym_encodeRaw32 (c : ElfCfg) (hc : c.cls = 32) (s : Sym) (hf : s.fits 32
   have e5 : ((s.type : Int) < 16) := by omega
   have e6 : ((s.local_ : Int) < 8) := by omega
   have e7 : ((s.visibility : Int) < 8) := by omega
-  simp only [Sym.enc, encNat_one]
+  simp only [Sym.enc, gv_encNat_one]
   simp [Spec.elfStructs, hc, st, mkFields, f, enumOf, symRaw, Con.encodeRaw, ConFields.encodeRaw, Fields.get?,
     enc_uint_nat, h1, h2, h3, h8, packBits, e4, e5, e6, e7]
 
@@ -37,7 +37,7 @@ theorem sym_encodeRaw64 (c : ElfCfg) (hc : c.cls = 64) (s : Sym) (hf : s.fits 64
   have e5 : ((s.type : Int) < 16) := by omega
   have e6 : ((s.local_ : Int) < 8) := by omega
   have e7 : ((s.visibility : Int) < 8) := by omega
-  simp only [Sym.enc, encNat_one]
+  simp only [Sym.enc, gv_encNat_one]
   simp [Spec.elfStructs, hc, st, mkFields, f, enumOf, symRaw, Con.encodeRaw, ConFields.encodeRaw, Fields.get?,
     enc_uint_nat, h1, h2, h3, h8, packBits, e4, e5, e6, e7]
 
